@@ -83,7 +83,7 @@ InBound(t) == IF Bound = 0 \/ t.b THEN TRUE
               ELSE \A kb \in DOMAIN Flat(t) : Abs(Flat(t)[kb][1]) <= Bound /\ Flat(t)[kb][2] <= DBound
 
 ---------------------------------------------------------------------------
-(* reductions: f in any all sum mean max min; axis "none", 0, 1; keepdims *)
+(* reductions: f in any all sum mean max min; axis "none", "a0", "a1"; keepdims *)
 RedSeq(f, q, isb) ==      \* q: non-empty sequence of numbers
   CASE f = "sum"  -> FoldSeq(RAdd, Zero, q)
     [] f = "mean" -> RDiv(FoldSeq(RAdd, Zero, q), R(Len(q)))
@@ -98,12 +98,12 @@ Reduce(f, t, axis, keep) ==
       col(j) == [i \in 1..Rows(t) |-> At(t, i, j)]
       row(i) == [j \in 1..Cols(t) |-> At(t, i, j)]
   IN IF t.nd = 1 THEN
-        IF axis = 1 THEN Reject
+        IF axis = "a1" THEN Reject
         ELSE IF keep THEN T1(<<RedVal(f, NumSeq(t), t.b)>>, rb) ELSE T0(RedVal(f, NumSeq(t), t.b), rb)
      ELSE \* nd = 2
         IF axis = None THEN
             IF keep THEN T2(<<<<RedVal(f, NumSeq(t), t.b)>>>>, rb) ELSE T0(RedVal(f, NumSeq(t), t.b), rb)
-        ELSE IF axis = 0 THEN
+        ELSE IF axis = "a0" THEN
             LET q == [j \in 1..Cols(t) |-> RedVal(f, col(j), t.b)] IN IF keep THEN T2(<<q>>, rb) ELSE T1(q, rb)
         ELSE
             LET q == [i \in 1..Rows(t) |-> RedVal(f, row(i), t.b)] IN
@@ -160,7 +160,7 @@ SetItem(t, ix, y) ==      \* new tensor or Reject
      ELSE T1([pos \in 1..Len(t.e) |-> IF \E k \in DOMAIN p : p[k] = pos
                                        THEN Store(t.b, y, 1, LastIdx(p, pos)) ELSE t.e[pos]], t.b)
   ELSE
-    CASE ix.k = "cell" -> IF y.nd = 0 THEN T2([t.e EXCEPT ![ix.i][ix.j] = Store(t.b, y, 1, 1)], t.b) ELSE Reject
+    CASE ix.k = "cell" -> IF Rows(y) \in {0, 1} /\ Cols(y) \in {0, 1} THEN T2([t.e EXCEPT ![ix.i][ix.j] = Store(t.b, y, 1, 1)], t.b) ELSE Reject
       [] ix.k = "row"  -> IF Rows(y) \in {0, 1} /\ Cols(y) \in {0, 1, Cols(t)}
                           THEN T2([t.e EXCEPT ![ix.i] = [j \in 1..Cols(t) |-> Store(t.b, y, 1, j)]], t.b) ELSE Reject
       [] ix.k = "rowslice" -> IF Rows(y) \in {0, 1} /\ Cols(y) \in {0, 1, ix.hi - ix.lo}
@@ -179,6 +179,9 @@ Val(s, o) == IF o.k = "ref" THEN s.objs[o.ref] ELSE o.t
 \* operands (m,1) are outside the supported operations)
 Supported(x, y) == /\ y.nd \in {0, 1, 2}
                    /\ y.nd = 2 => (Rows(y) = 1 \/ Cols(y) # 1 \/ Cols(x) = 1)
+                   \* a 2-d operand with one row is treated as that row by 1-d sparse objects (NumPy would
+                   \* return / demand a 2-d result): outside the contract
+                   /\ (x.nd = 1 /\ y.nd = 2) => Rows(y) # 1
 ZerosT(t) == Mk(Rows(t), Cols(t), LAMBDA i, j : IF t.b THEN FALSE ELSE Zero, t.b)
 
 \* ---- mutating operations: PostM gives <<new state, raises?>> ----------------
@@ -203,11 +206,12 @@ Pre(s, op, a) ==
     [] op = "setitem" -> /\ a.tgt \in Names /\ IxOK(s.objs[a.tgt], a.ix)
                          /\ (a.o.k = "ref" => a.o.ref \in Names)
                          /\ Val(s, a.o).nd \in {0, 1, 2}
+                         /\ a.ix.k = "mask" => Val(s, a.o).nd # 2     \* NumPy itself refuses 2-d values for boolean-mask assignment
                          /\ s.objs[a.tgt].b => Val(s, a.o).b
                          /\ InBound(Val(s, a.o))
-    [] op = "clear" -> a.tgt \in Names
-    [] op = "setflags" -> a.tgt \in Names
-    [] op = "copy_like" -> /\ a.tgt \in Names /\ a.src \in Names /\ Kind[a.tgt] = Kind[a.src] /\ ~s.ro[a.tgt]
+    [] op = "clear" -> a.tgt \in Names /\ Kind[a.tgt] # "lvec"        \* no such method on logical vectors
+    [] op = "setflags" -> a.tgt \in Names /\ Kind[a.tgt] # "lvec"      \* logical vectors have no read-only flag
+    [] op = "copy_like" -> /\ a.tgt \in Names /\ a.src \in Names /\ Kind[a.tgt] = Kind[a.src] /\ ~s.ro[a.tgt] /\ Kind[a.tgt] # "lvec"
                            /\ SameShape(s.objs[a.tgt], s.objs[a.src])
     [] op = "mix_from" -> /\ a.tgt \in Names /\ Kind[a.tgt] = "vec" /\ ~s.ro[a.tgt]
                           /\ \A k \in DOMAIN a.srcs : a.srcs[k] \in Names /\ Kind[a.srcs[k]] = "vec"
@@ -226,7 +230,7 @@ Pre(s, op, a) ==
                     /\ a.f \in {"neg", "abs"} => ~s.objs[a.x].b
                     /\ a.f = "invert" => s.objs[a.x].b
     [] op = "red" -> /\ a.x \in Names /\ a.f \in {"any", "all", "sum", "mean", "max", "min"}
-                     /\ a.axis \in {None, 0, 1}
+                     /\ a.axis \in {None, "a0", "a1"}
     [] op = "getitem" -> a.x \in Names /\ IxOK(s.objs[a.x], a.ix)
     [] OTHER -> FALSE
 
@@ -289,7 +293,12 @@ ValuesBounded == \A n \in Names : InBound(objs[n])
 
 ---------------------------------------------------------------------------
 (* binding to recorded executions *)
-TEq(x, y) == x.nd = y.nd /\ x.b = y.b /\ x = y      \* rank and dtype first: TLC cannot compare values of different type
+TEq(x, y) == x.nd = y.nd /\ x.b = y.b /\ x = y
+\* equal dense images up to the element type (True = 1, False = 0)
+NumImage(x) == Mk(Rows(x), Cols(x), LAMBDA i, j : At(x, i, j), FALSE)
+NEq(x, y) == x.nd = y.nd /\ (IF x.b = y.b THEN x = y
+                              ELSE IF x.nd = 1 /\ (Len(x.e) = 0 \/ Len(y.e) = 0) THEN Len(x.e) = Len(y.e)
+                              ELSE SameShape(x, y) /\ NumImage(x) = NumImage(y))      \* rank and dtype first: TLC cannot compare values of different type
 InitFrom(r) == objs = r.objs /\ ro = r.ro /\ path = <<>>
 WellFormed(t) == \A k \in DOMAIN Flat(t) : t.b \/ Flat(t)[k][2] > 0
 Legal(s) == TypeOKs(s) /\ \A n \in Names : WellFormed(s.objs[n])
@@ -299,6 +308,8 @@ FirstBadRep(names, reps, t) ==       \* names: sequence; reps, t: records by nam
   IF names = <<>> THEN "ok"
   ELSE IF ~RepOK(reps[Head(names)], t[Head(names)]) THEN "representation." \o Head(names)
   ELSE FirstBadRep(Tail(names), reps, t)
+
+ObsLegal(e) == FirstBadRep(e.obs.names, e.obs.rep, e.post.objs) = "ok"
 
 \* e = [op, a, post, obs];  obs = [exc, res (tensor or Reject), resrep (rows, <<>> if dense), rep (by name), names (seq)]
 Judge(s, e) ==
@@ -314,8 +325,7 @@ Judge(s, e) ==
      ELSE IF \E n \in Names : ~TEq(e.post.objs[n], t.objs[n]) /\ e.op \in Mutating /\ n = e.a.tgt THEN "post.target"
      ELSE IF \E n \in Names : ~TEq(e.post.objs[n], t.objs[n]) THEN "post.other_object_changed"
      ELSE IF e.op \in Pure /\ ~refused /\ e.obs.res.nd # Res(s, e.op, e.a).nd THEN "result.ndim"
-     ELSE IF e.op \in Pure /\ ~refused /\ e.obs.res.b # Res(s, e.op, e.a).b THEN "result.dtype"
-     ELSE IF e.op \in Pure /\ ~refused /\ ~TEq(e.obs.res, Res(s, e.op, e.a)) THEN "result.value"
+     ELSE IF e.op \in Pure /\ ~refused /\ ~NEq(e.obs.res, Res(s, e.op, e.a)) THEN "result.value"
      ELSE IF e.op \in Pure /\ ~refused /\ e.obs.resrep # <<>> /\ ~RepOK(e.obs.resrep, e.obs.res) THEN "representation.result"
      ELSE FirstBadRep(e.obs.names, e.obs.rep, e.post.objs)
 
